@@ -239,6 +239,10 @@ int MxEndpoint::create(const EpCfg &c, const sslKeys_t *keys) {
     if (cfg.fallback_scsv) { opt.fallbackScsv = 1; }
     if (cfg.max_early_data > 0) { opt.tls13SessionMaxEarlyData = (psSize_t) cfg.max_early_data; }
     if (!cfg.groups.empty()) {
+        // the same list also restricts the TLS <= 1.2 / DTLS curves (sslSessOpts_t.ecFlags; NIST curves only: X25519 is a TLS 1.3 group here)
+        int32 ef = 0;
+        for (auto g : cfg.groups) { if (g == 23) { ef |= IS_SECP256R1; } else if (g == 24) { ef |= IS_SECP384R1; } else if (g == 25) { ef |= IS_SECP521R1; } }
+        if (ef) { opt.ecFlags = ef; }
         rc = matrixSslSessOptsSetKeyExGroups(&opt, cfg.groups.data(), (psSize_t) cfg.groups.size(), (psSize_t) (cfg.key_shares ? cfg.key_shares : 1));
         if (rc < 0) { create_rc = rc; log("SessOptsSetKeyExGroups", rc); return rc; }
     }
